@@ -34,7 +34,7 @@ fn to_f32(&self) -> Approximation<f32, Sign>
             let ghost e = shift as int; let ghost gn = rs_num(xn, e); let ghost gd = rs_den(xd, e);
             proof {
                 lemma_quot_bounds(xn, xd, num_bits as nat, den_bits as nat, 23, e);
-                lemma2_to64(); lemma2_to64_rest();
+                lemma_pow2_consts();
                 if e >= 0 { lemma_pow2_pos(e as nat); } else { lemma_pow2_pos((-e) as nat); }
             } @*/
         let (num, den) = if shift >= 0 {
@@ -56,13 +56,7 @@ fn to_f32(&self) -> Approximation<f32, Sign>
         // then construct the
         if shift >= 128 {
             /*@ proof {
-                // x >= 2^23 * 2^shift >= 2^128
-                let pe = pow2(e as nat) as int;
-                lemma_pow2_mono(105, e as nat);
-                lemma_pow2_adds(23, 105);
-                assert(0x800000 * (xd * pe) >= pow2(128) * xd) by (nonlinear_arith)
-                    requires pe >= pow2(105), pow2(128) == 0x800000 * pow2(105), xd > 0;
-                lemma_overflow_q(fmt32(), neg, xn, xd, 128);
+                lemma_ratio_overflow(fmt32(), neg, xn, xd, e);
             } @*/
             // max f32 = 2^128 * (1 - 2^-24)
             Inexact(sign * f32::INFINITY, sign)
@@ -76,12 +70,8 @@ fn to_f32(&self) -> Approximation<f32, Sign>
             /*@ proof { lemma_rq_man(gn, gd); } @*/
             let (man, r) = num.unsigned_abs().div_rem(&den);
             /*@ proof {
-                // 2^23 <= quotient < 2^25
+                lemma_quot_fits(gn, gd, 25);
                 assert(man.v() == gn / gd && r.v() == gn % gd);
-                let qd = man.v() * gd;
-                assert(gd * man.v() == qd) by (nonlinear_arith) requires qd == man.v() * gd;
-                assert(man.v() < 0x2000000) by (nonlinear_arith) requires qd == man.v() * gd, qd <= gn, gn < 0x2000000 * gd, gd > 0;
-                assert(man.v() >= 0) by (nonlinear_arith) requires qd == man.v() * gd, qd + gd > gn, gn >= 0, gd > 0;
             } @*/
             let man: u32 = man.try_into().unwrap();
 
@@ -99,7 +89,7 @@ fn to_f32(&self) -> Approximation<f32, Sign>
             }
             .and_then(|man| /*@ -> (o: Approximation<f32, Sign>)
                 requires man <= 0x2000000
-                ensures ap32_ok(o, sign == Sign::Negative, sc_num(man as int, shift as int), sc_den(shift as int)) @*/
+                ensures enc_args32(o, sign, man, shift) @*/
                 f32::encode(sign * man as i32, shift as i16))
         }
         /*@ proof {
@@ -109,18 +99,9 @@ fn to_f32(&self) -> Approximation<f32, Sign>
                 let fr = fields32(ap_val(ret));
                 lemma_pow2_pos(23);
                 vstd::arithmetic::div_mod::lemma_mod_bound(ap_val(ret).to_bits_spec() as int, 0x80_0000);
-                if gn % gd == 0 {
-                    // single rounding of the exact quotient a * 2^shift == x
-                    lemma_value_from_quot(xn, xd, e, a);
-                    lemma_rne_same_value(fmt32(), neg, sc_num(a, e), sc_den(e), xn, xd, fr, ap_exact(ret), ap_pos(ret));
-                } else {
-                    if !rne_ok(fmt32(), neg, sc_num(a, e), sc_den(e), fr, true, true) {
-                        // encode was inexact too: the excluded double-rounding region
-                        assert(enc_inexact_w(fmt32(), neg, a, e, fr, ap_pos(ret)));
-                        assert(false);
-                    }
-                    lemma_two_stage(fmt32(), neg, xn, xd, e, a, fr, true);
-                }
+                assert forall|o: Approximation<f32, Sign>| #[trigger] enc_args32(o, sign, a as u32, shift) implies
+                    ap32_ok(o, neg, sc_num(a, e), sc_den(e)) by { lemma_enc_args32(o, sign, a as u32, shift); }
+                lemma_ratio_final(fmt32(), neg, xn, xd, e, fr, ap_exact(ret), ap_pos(ret));
             }
         } @*/
     }
